@@ -417,8 +417,8 @@ Group(p, i, ng, mb, md, mk(_), quant) ==          \* body at i, then ")"
   ELSE LET r == POk(b.i + 1, mk(b.a), b.ng, b.mb) IN IF quant THEN WithQuant(p, r, md) ELSE r
 PTerm(p, i, ng, mb, md) ==
   LET c == At(p, i) IN
-  CASE c = 94 -> POk(i + 1, Bol, ng, mb)
-    [] c = 36 -> POk(i + 1, Eol, ng, mb)
+  CASE c = 94 -> (IF "asQuant" \in md THEN WithQuant(p, POk(i + 1, Bol, ng, mb), md) ELSE POk(i + 1, Bol, ng, mb))
+    [] c = 36 -> (IF "asQuant" \in md THEN WithQuant(p, POk(i + 1, Eol, ng, mb), md) ELSE POk(i + 1, Eol, ng, mb))
     [] c = 46 -> WithQuant(p, POk(i + 1, AnyC, ng, mb), md)
     [] c \in {42, 43, 63, 41, 124, -1} -> PFail                                   \* nothing to repeat / not a term
     [] c = 123 -> IF IsB(md) /\ ~Brace(p, i).ok THEN WithQuant(p, POk(i + 1, Chr(c), ng, mb), md) ELSE PFail
@@ -437,8 +437,8 @@ PTerm(p, i, ng, mb, md) ==
               ELSE PFail                                                              \* incl. named groups: not in the supported syntax
     [] c = 92 ->
          LET e == At(p, i + 1) IN
-         IF e = 98 THEN POk(i + 2, Wb, ng, mb)
-         ELSE IF e = 66 THEN POk(i + 2, Nwb, ng, mb)
+         IF e = 98 THEN (IF "asQuant" \in md THEN WithQuant(p, POk(i + 2, Wb, ng, mb), md) ELSE POk(i + 2, Wb, ng, mb))
+         ELSE IF e = 66 THEN (IF "asQuant" \in md THEN WithQuant(p, POk(i + 2, Nwb, ng, mb), md) ELSE POk(i + 2, Nwb, ng, mb))
          ELSE IF e \in {100, 68, 119, 87, 115, 83} THEN WithQuant(p, POk(i + 2, Sh(e), ng, mb), md)
          ELSE IF e >= 49 /\ e <= 57
               THEN LET j == DigitsEnd(p, i + 1)
@@ -458,7 +458,7 @@ PDisj(p, i, ng, mb, md) ==
   ELSE IF At(p, l.i) # 124 THEN l
   ELSE LET r == PDisj(p, l.i + 1, l.ng, l.mb, md) IN IF ~r.ok THEN PFail ELSE POk(r.i, Alt(l.a, r.a), r.ng, r.mb)
 
-\* md: set of options.  "B": the Annex B grammar;  "rangeOrder" / "quantOrder" / "lbQuant" / "fwdRef": one early error or
+\* md: set of options.  "B": the Annex B grammar;  "rangeOrder" / "quantOrder" / "lbQuant" / "asQuant" (a quantifier after ^ $ \b \B) / "fwdRef": one early error or
 \* restriction relaxed (used by C10 to name the rule an engine gets wrong)
 ParseOpt(p, md) ==
   LET r == PDisj(p, 1, 0, 0, md) IN
